@@ -320,7 +320,7 @@ def evaluate(case):
 
 
 # --------------------------------------------------------------------------------------------------
-PDBS_QUICK = [("native.pdb", {}), ("2EQQ.pdb", {"frames": [0, 1, 2]}), ("1vii.pdb", {}), ("1bpi.pdb", {}), ("bpti.pdb", {}),
+PDBS_QUICK = [("native.pdb", {}), ("2koc.pdb", {"frames": [0, 1]}), ("2EQQ.pdb", {"frames": [0, 1, 2]}), ("1vii.pdb", {}), ("1bpi.pdb", {}), ("bpti.pdb", {}),
               ("aaqaa-wat.pdb", {}), ("1am7_protein.pdb", {}), ("4OH9.pdb", {}), ("1ncw.pdb.gz", {"protein_chains_only": True, "max_residues": 441})]
 PDBS_THOROUGH = PDBS_QUICK + [("1ncw.pdb.gz", {}), ("4ZUO.pdb", {}), ("1vii_sustiva_water.pdb", {"frames": [0, 2]}), ("frame0.h5", {"frames": [0, 250, 500]}),
                               ("2EQQ.pdb", {"frames": list(range(20))}), ("3nch.pdb.gz", {"max_residues": 700})]
@@ -386,7 +386,7 @@ def _size(case):
     if "chains" in case:
         return sum(n for ch in case["chains"] for _, n in ch)
     return {"native.pdb": 3, "frame0.h5": 3, "2EQQ.pdb": 28, "1vii.pdb": 36, "1bpi.pdb": 58, "bpti.pdb": 58, "aaqaa-wat.pdb": 100,
-            "1am7_protein.pdb": 158, "4OH9.pdb": 210}.get(case["pdb"], 2000)
+            "1am7_protein.pdb": 158, "4OH9.pdb": 210, "2koc.pdb": 14}.get(case["pdb"], 2000)
 
 
 def run(tier, seed, hint):
